@@ -86,6 +86,7 @@ fn dump_iter(it: &mut dyn RainDbIterator<Key = Vec<u8>, Error = RainDBError>) ->
 
 /// Check that every key group carries one tag in a consistent read (C06).
 fn check_groups(out: &Shared, plan: &Plan, dump: &Dump, how: &str, idx: usize, groups: &[Vec<usize>]) {
+    with_out(out, |o| o.stats.bump("group_reads_checked", groups.len() as u64));
     let m: BTreeMap<&[u8], &[u8]> = dump.iter().map(|(k, v)| (k.as_slice(), v.as_slice())).collect();
     for g in groups {
         let tags: Vec<Option<u32>> = g.iter().map(|k| m.get(plan.keys[*k % plan.keys.len()].as_slice()).and_then(|v| tag_of(v))).collect();
